@@ -200,6 +200,9 @@ func init() {
 				c.rule("R15", ruleR15),
 				prefixFilter(c.rule("R33", ruleR33), "R33", "WALK: the order list's index walks (Remove(IndexOf(key)) unlinks the element at that index)", 3, "R33:lists/doublylinkedlist"),
 				prefixFilter(c.rule("R25", ruleR25), "R25", "DLINK: the order list's next/prev links are stored in pairs", 3, "R25:lists/doublylinkedlist"),
+				filter(c.rule("R1", ruleR1), "R1", "PURE: the enumerating operations of the linked hash containers (Keys, Values, Each, iterators, …) write nothing — what they report is the order list as the mutators left it, not a copy of their own", 20, func(o Obligation) bool {
+					return strings.HasPrefix(o.Key, "R1:maps/linkedhashmap.(*Map).") || strings.HasPrefix(o.Key, "R1:sets/linkedhashset.(*Set).")
+				}),
 			}, "dll")...)
 	}}
 	properties["C10"] = propDef{run: func(c *Ctx) *PropertyRun {
